@@ -1,4 +1,4 @@
-HOOK_COMMITS = []
+HOOK_COMMITS = ["2e1c1e0"]
 NOT_YET = {f"C{i:02d}": "check not built yet in this round (planned, see DESIGN.md section 3); no other technique substituted" for i in range(1, 21)}
 
 add("C01", "exploration",
